@@ -29,7 +29,8 @@ func (gs GenesisState) Validate() error {
 	allowedBidderIndexMap := make(map[string]struct{})
 
 	for _, elem := range gs.AllowedBidderList {
-		index := fmt.Sprint(elem.AuctionId)
+		// The collection key is (auction id, bidder)
+		index := fmt.Sprint(elem.AuctionId) + "/" + elem.Bidder
 		if _, ok := allowedBidderIndexMap[index]; ok {
 			return fmt.Errorf("duplicated index for allowedBidder")
 		}
@@ -43,7 +44,8 @@ func (gs GenesisState) Validate() error {
 	vestingQueueIndexMap := make(map[string]struct{})
 
 	for _, elem := range gs.VestingQueueList {
-		index := fmt.Sprint(elem.AuctionId)
+		// The collection key is (auction id, release time)
+		index := fmt.Sprint(elem.AuctionId) + "/" + fmt.Sprint(elem.ReleaseTime.UnixNano())
 		if _, ok := vestingQueueIndexMap[index]; ok {
 			return fmt.Errorf("duplicated index for vestingQueue")
 		}
@@ -54,12 +56,14 @@ func (gs GenesisState) Validate() error {
 		}
 	}
 	// Check for duplicated ID in bid
-	bidIdMap := make(map[uint64]bool)
+	// Bid ids are unique per auction: the collection key is (auction id, bid id)
+	bidIdMap := make(map[string]bool)
 	for _, elem := range gs.BidList {
-		if _, ok := bidIdMap[elem.Id]; ok {
+		index := fmt.Sprint(elem.AuctionId) + "/" + fmt.Sprint(elem.Id)
+		if _, ok := bidIdMap[index]; ok {
 			return fmt.Errorf("duplicated id for bid")
 		}
-		bidIdMap[elem.Id] = true
+		bidIdMap[index] = true
 
 		if err := elem.Validate(); err != nil {
 			return err
